@@ -174,7 +174,7 @@ func ruleGuardedBy(r *Run, rule string) {
 	w := r.W
 	l := buildLck(w)
 	r.Doc(rule, "a guarded field is read or written without its mutex: data race under concurrent use")
-	if len(l.classes) != 13 {
+	if len(l.classes) < 13 {
 		r.add(rule, "classes:floor", "-", fmt.Sprintf("%d structs with a mutex found, expected 13", len(l.classes)), Floor)
 	}
 	// fields published through sync.Once: every write of the field lies in a function literal passed to (*sync.Once).Do
@@ -951,6 +951,21 @@ func ruleLockOrder(r *Run, rule string) {
 		}
 		_ = c
 		onceOK := cl != nil && set != nil && domInstr(set, cl)
+		if cl == nil {
+			// closed inside a sync.Once body: once by construction
+			for _, af := range fn.AnonFuncs {
+				inOnce := false
+				allInstrs(af, func(in ssa.Instruction) {
+					if call, ok := in.(*ssa.Call); ok && calleeName(call.Common()) == "builtin:close" {
+						inOnce = isOnceBody(w, af)
+						cl = in
+					}
+				})
+				if inOnce {
+					onceOK = true
+				}
+			}
+		}
 		if !onceOK && cl != nil && set != nil {
 			// not by dominance (the set may sit in one arm of an inlined helper): on every feasible path that reaches the
 			// close, the flag was set before
@@ -1160,6 +1175,16 @@ func rulePoolEscape(r *Run, rule string) {
 							derived[v] = true
 							changed = true
 						}
+						// read back from a local variable cell (a variable captured by a closure) that was given a
+						// derived reference
+						if a, isA := x.X.(*ssa.Alloc); isA && x.Op == token.MUL && !derived[v] {
+							for _, ref := range *a.Referrers() {
+								if st, isSt := ref.(*ssa.Store); isSt && st.Addr == ssa.Value(a) && derived[st.Val] {
+									derived[v] = true
+									changed = true
+								}
+							}
+						}
 					case *ssa.Slice:
 						if derived[x.X] {
 							derived[v] = true
@@ -1266,4 +1291,83 @@ func vtaTargets(w *World, in ssa.Instruction) []*ssa.Function {
 		}
 	}
 	return out
+}
+
+// ruleLockBalance: LCK5 — a mutex a function takes is released again on every way out: at each return the must-lockset
+// holds nothing the function acquired itself, unless a deferred Unlock / RUnlock of that very mutex was registered on the
+// way. (A read lock that is never released blocks every later writer for good; the tests, being sequential, do not
+// notice.) Functions that hand the lock to their caller on purpose would show up here: the tree has none.
+func ruleLockBalance(r *Run, rule string) {
+	w := r.W
+	l := buildLck(w)
+	r.Doc(rule, "a lock is left held on some exit: every later writer (or reader) of that object blocks forever")
+	n := 0
+	for _, fn := range w.Funcs {
+		la := l.la[fn]
+		if la == nil {
+			continue
+		}
+		// mutexes with a deferred release, by canonical name, and where the defer was registered
+		type dreg struct {
+			mu string
+			in ssa.Instruction
+		}
+		var defers []dreg
+		acquires := false
+		allInstrs(fn, func(in ssa.Instruction) {
+			op, isDefer, cc := lockOp(in)
+			if op == "" {
+				return
+			}
+			if isDefer && (op == "Unlock" || op == "RUnlock") {
+				defers = append(defers, dreg{la.c.S(cc.Args[0]), in})
+			}
+			if !isDefer && (op == "Lock" || op == "RLock") {
+				acquires = true
+			}
+		})
+		// a deferred closure that unlocks counts as well
+		allInstrs(fn, func(in ssa.Instruction) {
+			d, ok := in.(*ssa.Defer)
+			if !ok {
+				return
+			}
+			if mc, ok := d.Call.Value.(*ssa.MakeClosure); ok {
+				if g, ok := mc.Fn.(*ssa.Function); ok {
+					cg := NewCanon(w)
+					allInstrs(g, func(in2 ssa.Instruction) {
+						if op, isDef, cc := lockOp(in2); !isDef && (op == "Unlock" || op == "RUnlock") {
+							if t, ok := translatePath(la.c, cg.S(cc.Args[0]), nil, mc.Bindings); ok {
+								defers = append(defers, dreg{t, in})
+							}
+						}
+					})
+				}
+			}
+		})
+		if !acquires {
+			continue
+		}
+		n++
+		leak := ""
+		for _, ret := range returnsOf(fn) {
+			held := la.before[ret]
+			for mu := range held {
+				covered := false
+				for _, d := range defers {
+					if d.mu == mu && domInstr(d.in, ret) {
+						covered = true
+					}
+				}
+				if !covered {
+					leak = mu + " is still held at the return at " + w.InstrPos(ret)
+				}
+			}
+		}
+		// panics are exits too, but the tree's only panics are bugs already; not considered
+		r.Check(leak == "", rule, "balance:"+w.Name(fn), w.Pos(fn.Pos())+" "+w.Name(fn), "every lock taken is released on every return path", leak)
+	}
+	if n < 40 {
+		r.add(rule, "balance:floor", "-", fmt.Sprintf("only %d lock-taking functions analysed, floor is 40", n), Floor)
+	}
 }
